@@ -563,3 +563,204 @@ Proof.
   - injection Ha as <- <-. apply ref_none in Hk. exists (1%N, @None str), (mk_state ts rs). split; [|exact HR].
     apply runs_intro. cbn [run_op]. unfold with_reg. rbind; [apply reg_at_has|]. rewrite Hk. rdone.
 Qed.
+
+(* ------------------------------------------------------------------ an entry or a relation edited in place *)
+Lemma nth_index_replace_same {A} (p : A -> bool) x x' post n : p x = p x' -> forall pre,
+  nth_index p n (pre ++ x :: post) = nth_index p n (pre ++ x' :: post).
+Proof.
+  intros Hx pre. revert n. induction pre as [|y r IH]; intros n; cbn [app nth_index].
+  - now rewrite Hx.
+  - destruct (p y); [destruct n; [reflexivity|]|]; now rewrite IH.
+Qed.
+Lemma nth_error_replace_neq {A} (pre : list A) x y post c : c <> length pre ->
+  nth_error (pre ++ y :: post) c = nth_error (pre ++ x :: post) c.
+Proof.
+  intros H. destruct (Nat.lt_ge_cases c (length pre)) as [L|L].
+  - now rewrite !nth_error_app1 by exact L.
+  - rewrite !nth_error_app2 by exact L. destruct (c - length pre) as [|d] eqn:E; [lia|reflexivity].
+Qed.
+Lemma app_inj_length {A} (a a' : list A) : forall b b', a ++ b = a' ++ b' -> length a = length a' -> a = a' /\ b = b'.
+Proof.
+  revert a'. induction a as [|x r IH]; intros [|y r'] b b' H L; cbn in *; try discriminate; [auto|].
+  injection H as -> H. destruct (IH r' b b' H ltac:(lia)) as [-> ->]. auto.
+Qed.
+Lemma nth_entry_inj l i i0 ci e e0 : nth_entry l i = Some (ci, e) -> nth_entry l i0 = Some (ci, e0) -> i0 = i /\ e0 = e.
+Proof.
+  intros H H'. destruct (nth_entry_entries _ _ _ _ H) as (pre & post & -> & L & <-).
+  destruct (nth_entry_entries _ _ _ _ H') as (pre' & post' & E & L' & <-).
+  apply app_inj_length in E; [|congruence]. destruct E as [-> E]. injection E as -> _. auto.
+Qed.
+(* entry i edited in place: every entry stays where it is *)
+Lemma nth_entry_replace l i ci e e' i0 ci0 e0 : nth_entry l i = Some (ci, e) -> nth_entry l i0 = Some (ci0, e0) ->
+  nth_entry (replace_at ci (RE e') l) i0 = Some (ci0, if i0 =? i then e' else e0).
+Proof.
+  intros H H'. destruct (nth_entry_entries _ _ _ _ H) as (pre & post & -> & <- & <-). rewrite replace_at_split.
+  destruct (i0 =? length (lentries pre)) eqn:Ei.
+  - apply Nat.eqb_eq in Ei. subst i0. rewrite nth_entry_at in H'. injection H' as <- <-. apply nth_entry_at.
+  - apply Nat.eqb_neq in Ei. unfold nth_entry in *.
+    rewrite (nth_index_replace_same is_re (RE e') (RE e) post i0 eq_refl pre).
+    destruct (nth_index is_re i0 (pre ++ RE e :: post)) as [c|] eqn:Ec; [|discriminate].
+    assert (Hc : c <> length pre).
+    { intros ->. destruct (nth_index_re_split _ _ _ Ec) as (p0 & ex & q0 & E & L & Li).
+      apply app_inj_length in E; [|congruence]. destruct E as [<- _]. congruence. }
+    rewrite (nth_error_replace_neq pre (RE e) (RE e') post c Hc). exact H'.
+Qed.
+
+Lemma nth_index_le_last {A} (p : A -> bool) l : forall n i, nth_index p n l = Some i ->
+  exists li, last_index p l = Some li /\ i <= li.
+Proof.
+  induction l as [|c r IH]; intros n i H; cbn in H; [discriminate|]. cbn [last_index].
+  destruct (p c) eqn:Pc.
+  - destruct n as [|n].
+    + injection H as <-. destruct (last_index p r) as [j|]; eexists; split; try reflexivity; lia.
+    + destruct (nth_index p n r) as [j|] eqn:E; [|discriminate]. injection H as <-.
+      destruct (IH _ _ E) as (li & -> & Hl). eexists; split; [reflexivity|lia].
+  - destruct (nth_index p n r) as [j|] eqn:E; [|discriminate]. injection H as <-.
+    destruct (IH _ _ E) as (li & -> & Hl). eexists; split; [reflexivity|lia].
+Qed.
+(* something inserted behind position i *)
+Lemma nth_index_insert_after {A} (p : A -> bool) n l i pos new : nth_index p n l = Some i -> i < pos ->
+  nth_index p n (insert_at pos new l) = Some i.
+Proof.
+  intros H Hp. destruct (nth_index_count p n l i H) as (pre & x & post & -> & <- & Px & <-).
+  unfold insert_at. rewrite firstn_app. rewrite (firstn_all2 (n := pos)) by lia.
+  destruct (pos - length pre) as [|d] eqn:E; [lia|]. cbn [firstn]. rewrite <- app_assoc. cbn [app].
+  now apply nth_index_at.
+Qed.
+
+Lemma epush_children e r : exists pos new,
+  entry_push_plan (lentry_children e) (lrel_tree r) = (pos, new) /\
+  lentry_children (a_epush e r) = insert_at pos new (lentry_children e) /\
+  (forall j cj, nth_index is_relation j (lentry_children e) = Some cj -> cj < pos).
+Proof.
+  pose proof (epush_commute e r) as H. unfold entry_push_green in H. cbn [lentry_tree children] in H.
+  destruct (entry_push_plan (lentry_children e) (lrel_tree r)) as [pos new] eqn:Ep. exists pos, new.
+  split; [reflexivity|]. split; [cbn [set_children] in H; now injection H|].
+  intros j cj Hj. destruct (nth_index_le_last _ _ _ _ Hj) as (li & Hl & Hle).
+  unfold entry_push_plan in Ep. rewrite Hl in Ep. injection Ep as <- _. lia.
+Qed.
+
+Lemma uniq_remap_id rs h : new_uniq rs (remap (fun x => x) h) -> new_uniq rs h.
+Proof. intros U q q' x x' g g' Hq Hx Hx'. apply (U q q' x x' g g' Hq); now rewrite remap_id. Qed.
+Lemma upd_entry_at l i ci e F e' : nth_entry l i = Some (ci, e) -> F (lentry_tree e) = lentry_tree e' ->
+  upd_path (ltree l) [ci] F = ltree (replace_at ci (RE e') l).
+Proof.
+  intros H HF. destruct (nth_entry_entries _ _ _ _ H) as (pre & post & -> & <- & _). now apply upd_entry.
+Qed.
+
+(* entry i edited in place (it becomes e'); the alternatives it had keep their slots *)
+Lemma entry_edit_refs ts ts' rs F tid l i ci e e' h :
+  nth_entry l i = Some (ci, e) ->
+  (forall j sl, nth_error ts j = Some sl -> j <> tid -> nth_error ts' j = Some sl) ->
+  (forall g, h_tid g < length ts -> above tid [ci] g -> F g = g) ->
+  tid < length ts ->
+  (forall j cj, nth_index is_relation j (lentry_children e) = Some cj ->
+     F (mk_hnd tid [ci; cj]) = mk_hnd tid [ci; cj] /\ nth_index is_relation j (lentry_children e') = Some cj) ->
+  (forall q, ref_ok ts tid l (reg_at rs q) (h q)) ->
+  forall q, ref_ok ts' tid (replace_at ci (RE e') l) (reg_at (map (option_map F) rs) q) (h q).
+Proof.
+  intros He O A Hlt Hs Hok q. rewrite <- (remap_id h q).
+  eapply refs_transport; [exact keeps_id|exact O| | | | |exact Hok].
+  - intros g Hg Hn. apply A; [exact Hg|now apply above_other].
+  - apply A; [exact Hlt|apply above_root].
+  - intros i0 ci0 e0 H0. cbn [ref_ok]. exists ci0, (if i0 =? i then e' else e0). split; [now apply (nth_entry_replace l i ci e)|].
+    f_equal. apply A; [exact Hlt|]. destruct (Nat.eq_dec ci0 ci) as [->|Hn]; [apply above_self|].
+    apply (above_sibling tid [] ci ci0 [] []). congruence.
+  - intros i0 j ci0 e0 cj H0 Hj. cbn [ref_ok]. destruct (Nat.eq_dec ci0 ci) as [->|Hn].
+    + destruct (nth_entry_inj _ _ _ _ _ _ He H0) as [-> ->]. destruct (Hs _ _ Hj) as [HF Hj'].
+      exists ci, e', cj. split; [|split; [exact Hj'|now rewrite HF]].
+      rewrite (nth_entry_replace l i ci e e' i ci e He He). now rewrite Nat.eqb_refl.
+    + exists ci0, e0, cj. split; [|split; [exact Hj|]].
+      * rewrite (nth_entry_replace l i ci e e' i0 ci0 e0 He H0).
+        destruct (i0 =? i) eqn:Ei; [|reflexivity]. apply Nat.eqb_eq in Ei. subst i0. congruence.
+      * f_equal. apply A; [exact Hlt|]. apply (above_sibling tid [] ci ci0 [] [cj]). congruence.
+Qed.
+
+(* ------------------------------------------------------------------ Entry::push *)
+Lemma epush_machine ts rs tid ri l i ci e rk rr te G :
+  reg_at rs rk = Some (mk_hnd tid [ci]) -> nth_error ts tid = Some (mk_slot true ri (ltree l)) ->
+  nth_entry l i = Some (ci, e) ->
+  reg_at rs rr = Some (mk_hnd te []) -> nth_error ts te = Some (mk_slot true 0 G) ->
+  exists ts' F pos new,
+    entry_push_plan (lentry_children e) G = (pos, new) /\
+    runs (entry_push fixed rk rr) (mk_state ts rs) tt (mk_state ts' (set_reg_l rr None (map (option_map F) rs))) /\
+    nth_error ts' tid = Some (mk_slot true ri (upd_path (ltree l) [ci] (fun _ => Node ENTRY (insert_at pos new (lentry_children e))))) /\
+    (forall j sl, nth_error ts j = Some sl -> j <> tid -> nth_error ts' j = Some sl) /\
+    (forall g, h_tid g < length ts -> above tid [ci] g -> F g = g) /\
+    (forall c rest, F (mk_hnd tid ([ci] ++ c :: rest)) = mk_hnd tid ([ci] ++ (if pos <=? c then c + length new else c) :: rest)).
+Proof.
+  intros Hk HT He Hr HE. pose proof (get_path_entry _ _ _ _ He) as HG.
+  pose proof (entry_push_plan_pos (lentry_children e) G) as Hpos.
+  destruct (entry_push_plan (lentry_children e) G) as [pos new] eqn:Epl. cbn [fst] in Hpos.
+  destruct (m_insert_fresh_spec new ts rs rk tid ri (ltree l) [ci] ENTRY (lentry_children e) pos (reg_at_nth _ _ _ Hk) HT HG Hpos)
+    as (ts' & F & R & L & T' & O & A & B).
+  exists ts', F, pos, new. split; [reflexivity|]. split; [|split; [exact T'|split; [|split; [exact A|exact B]]]].
+  - unfold entry_push. rbind; [apply runs_get_reg; apply reg_at_nth; exact Hk|].
+    rbind; [eapply runs_node_of; [exact HT|exact HG]|].
+    rbind; [unfold node_of_reg; rbind; [apply runs_get_reg; apply reg_at_nth; exact Hr|]; eapply runs_node_of; [exact HE|reflexivity]|].
+    cbn [fx_in_place fixed s_tree children lentry_tree]. rewrite Epl.
+    rbind; [exact R|]. apply runs_set_reg.
+  - intros j sl Hj Hn. rewrite O; [exact Hj|exact Hn|eapply nth_error_Some_lt; exact Hj].
+Qed.
+
+Lemma reg_text_runs ts rs r tid p sl n : reg_at rs r = Some (mk_hnd tid p) -> nth_error ts tid = Some sl ->
+  get_path (s_tree sl) p = Some n -> runs (reg_text r) (mk_state ts rs) (Some (text n)) (mk_state ts rs).
+Proof.
+  intros Hr HT HG. unfold reg_text, node_of_reg.
+  rbind; [rbind; [apply runs_get_reg; apply reg_at_nth; exact Hr|]; eapply runs_node_of; [exact HT|exact HG]|]. rdone.
+Qed.
+
+Lemma step_epush b sv st a k m a' tr : Rel b sv st a -> h_op (OEPush k m) a = Some (a', tr) ->
+  forallb operands_ok tr = true ->
+  exists out st', run_op fixed (OEPush k m) st = Ok (out, st') /\ Rel b sv st' a'.
+Proof.
+  destruct st as [ts rs]. intros HR Ha Ho. pose proof HR as (tid & ri & l & HT & Hw & Hc & H0 & Hok & U). cbn [trees regs] in *.
+  cbn [h_op] in Ha. pose proof (Hok (rreg m)) as Hm. pose proof (Hok (ereg k)) as Hk.
+  destruct (h_reg a (rreg m)) as [x|] eqn:Ex.
+  2:{ injection Ha as <- <-. apply ref_none in Hm. exists (1%N, @None str), (mk_state ts rs). split; [|exact HR].
+      apply runs_intro. cbn [run_op]. unfold with_reg. rbind; [apply reg_at_has|]. rewrite Hm. rdone. }
+  destruct x; try discriminate. destruct (reg_at rs (rreg m)) as [gm|] eqn:Egm; [|contradiction].
+  cbn [ref_ok] in Hm. destruct Hm as (te & -> & Hte & HE & Hnew).
+  destruct (h_reg a (ereg k)) as [y|] eqn:Ey.
+  2:{ injection Ha as <- <-. apply ref_none in Hk.
+      exists (1%N, @None str), (mk_state ts (set_reg_l (rreg m) None rs)). split.
+      - apply runs_intro. cbn [run_op]. unfold with_reg. rbind; [apply reg_at_has|]. rewrite Egm.
+        rbind; [apply reg_at_has|]. rewrite Hk. rbind; [apply runs_set_reg|]. rdone.
+      - exists tid, ri, l. cbn [trees regs h_f h_reg]. split; [exact HT|]. split; [exact Hw|]. split; [exact Hc|].
+        split; [rewrite upd_other by apply rreg_neq0; exact H0|]. split.
+        + apply refs_set; [exact Hok|exact I].
+        + apply uniq_set_plain; [exact U|exact I]. }
+  destruct y; try discriminate. injection Ha as <- <-. cbn [forallb] in Ho. rewrite andb_true_r in Ho.
+  destruct (reg_at rs (ereg k)) as [gk|] eqn:Egk; [|contradiction]. cbn [ref_ok] in Hk. destruct Hk as (ci & e & He & ->).
+  pose proof (nth_error_Some_lt _ _ _ HT) as Hlt.
+  destruct (nth_entry_content _ _ _ _ _ _ Hc He) as (Hi & _).
+  assert (Hx' : x_in_range (fst (lcontent l)) (AEPush i r) = true) by (rewrite Hc; cbn; now apply Nat.ltb_lt).
+  destruct (live_step_tree b (AEPush i r) l Hw Ho Hx') as (l' & Hal & _ & Hw' & Hc' & _).
+  cbn [a_op] in Hal. unfold a_on_entry in Hal. rewrite He in Hal. injection Hal as <-.
+  destruct (epush_machine ts rs tid ri l i ci e (ereg k) (rreg m) te (crel_tree r) Egk HT He Egm HE)
+    as (ts' & F & pos & new & Epl & R & T' & O & A & B).
+  rewrite (crel_is_lrel _ Hnew) in Epl.
+  destruct (epush_children e (lrel_new r)) as (pos' & new' & Epl' & Ech & Hslots). rewrite Epl in Epl'. injection Epl' as <- <-.
+  assert (ET : upd_path (ltree l) [ci] (fun _ => Node ENTRY (insert_at pos new (lentry_children e)))
+               = ltree (replace_at ci (RE (a_epush e (lrel_new r))) l)).
+  { apply (upd_entry_at l i ci e); [exact He|]. unfold lentry_tree. now rewrite Ech. }
+  rewrite ET in T'.
+  assert (Fk : F (mk_hnd tid [ci]) = mk_hnd tid [ci]) by (apply A; [exact Hlt|apply above_self]).
+  assert (Hne : ereg k <> rreg m) by apply ereg_rreg.
+  eexists (0%N, _), (mk_state ts' (set_reg_l (rreg m) None (map (option_map F) rs))). split.
+  - apply runs_intro. cbn [run_op]. unfold with_reg. rbind; [apply reg_at_has|]. rewrite Egm.
+    rbind; [apply reg_at_has|]. rewrite Egk. rbind; [exact R|].
+    rbind; [|rdone]. eapply reg_text_runs; [|exact T'|].
+    + rewrite reg_at_set. apply Nat.eqb_neq in Hne. rewrite Hne. rewrite reg_at_map, Egk. cbn [option_map]. now rewrite Fk.
+    + cbn [s_tree]. rewrite <- ET. eapply get_path_upd_path. apply (get_path_entry _ _ _ _ He).
+  - exists tid, ri, (replace_at ci (RE (a_epush e (lrel_new r))) l). cbn [trees regs h_f h_reg].
+    split; [exact T'|]. split; [exact Hw'|]. split; [rewrite Hc', Hc; reflexivity|].
+    split; [rewrite upd_other by apply rreg_neq0; exact H0|]. split.
+    + apply refs_set; [|exact I]. eapply (entry_edit_refs ts ts' rs F tid l i ci e); [exact He|exact O|exact A|exact Hlt| |exact Hok].
+      intros j cj Hj. pose proof (Hslots _ _ Hj) as Hlt'. split.
+      * change [ci; cj] with ([ci] ++ cj :: []). rewrite B. replace (pos <=? cj) with false by (symmetry; apply Nat.leb_gt; lia). reflexivity.
+      * rewrite Ech. now apply nth_index_insert_after.
+    + apply uniq_set_plain; [|exact I]. apply uniq_remap_id.
+      eapply uniq_transport; [exact keeps_id| |exact Hok|exact U].
+      intros g Hg Hn. apply A; [exact Hg|now apply above_other].
+Qed.
